@@ -10,16 +10,26 @@ def plan(tier):
             "ln1m_switch_neighbourhood", "sum_empty", "sum_single", "sum_200", "sum_neutral",
             "grid_n3", "grid_n5", "grid_n11", "grid_n101", "grid_nonuniform",
             "conv_exact", "conv_approx", "conv_zero", "checked_special", "checked_boundary", "checked_outside",
-            "accumulator_chain"],
+            "accumulator_chain",
+            "exp_range_edge_sweep", "exp_biased_exponent_minus_one", "more_than_42000_summands",
+            "grid_more_than_100000_points"],
         "rule": "self-contained operation events (operands and result as fixed-point images relative to the largest "
                 "operand) over a log grid of magnitudes (ratios 1 .. 1e-300 and beyond f64's range), the switch "
                 "points -0.693 and -500, lists of 0..200 elements, four grid sizes and non-uniform grids over six "
                 "smooth densities, twelve conversion chains, checked construction, and accumulator chains of 4-15 "
-                "operations stepped by the exact accumulator of the trace specification",
+                "operations stepped by the exact accumulator of the trace specification; a dense sweep (step 0.05 nats) of "
+                "log-differences over [-746, -699], the region where exp() leaves the normal f64 range (smallest "
+                "normal exp(-708.4), biased exponent -1 at (-710, -709.78), smallest subnormal exp(-745.13)), for "
+                "add / sub / sum / cumsum in both argument orders, complement and LogProb -> Prob; closed-form "
+                "families: lists of 42 501 .. 1 000 000 operands (one dominant element + classes of sub-1.2e-7 "
+                "elements whose total is 0.4 % .. 60 % of it) for sum and selected cumsum prefixes, and trapezoid / "
+                "Simpson grids of 100 001 .. 1 000 001 points (one peak cell on a piecewise constant floor)",
         "bounds": {"mc": "One=100, grid {0,1,50,100}, <= 4 operations (thorough: 5 values, 6 operations), "
                          "per-operation error 1 unit, all error choices",
                    "impl": "log-probabilities in [-1e6, 0] and ln(0); lists <= 200; integration grids n in "
-                           "{3,4,5,11,101}, non-uniform integer grids of <= 60 points"},
+                           "{3,4,5,11,101}, non-uniform integer grids of <= 60 points; closed-form lists / grids up to "
+                           "10^6 elements (only class values, multiplicities and positions are recorded; closed "
+                           "forms proved equal to Sum / CumSums / the rules for small parameters: BigLemmas)"},
         "assumptions": ["numeric accuracy is decided only through the harness's fixed-point projection (std exp / ln "
                         "in f64, trusted): operands round(exp(lp - lp_max) * 1e6), results likewise, conversions on "
                         "a 1e9 scale, abscissae projected to their grid index; TLC checks integer inequalities",
